@@ -86,12 +86,17 @@ func (x *Exec) fnEffects(fn *ssa.Function, depth int) ModSet {
 		u.effects[fn] = ms
 		return ms
 	}
-	if len(fn.Blocks) == 0 || !inRepo(fn) || depth > 6 {
+	if len(fn.Blocks) == 0 || !inRepo(fn) {
+		// a function outside the repository: it can only write memory of types reachable from its
+		// arguments (assumed: libraries keep no hidden pointers into the caller's memory of other
+		// types); anything behind an interface, function value, map or channel is unknown -> everything
+		ms = externalEffects(fn)
+		u.effects[fn] = ms
+		return ms
+	}
+	if depth > 6 {
 		ms.all = true
 		ms.allocs = true
-		if depth <= 6 {
-			u.effects[fn] = ms
-		}
 		return ms
 	}
 	u.effects[fn] = ModSet{all: true, allocs: true, prefixes: map[string]bool{}} // recursion guard
@@ -1138,4 +1143,65 @@ func (x *Exec) bytesEqual(st *State, a, b Value) *Term {
 	return And(Eq(a.Len, b.Len), Forall([][2]string{{"k!e", m.ixSort()}},
 		Implies(And(m.cmp(token.LEQ, m.ix(0), k, ixT), m.cmp(token.LSS, k, a.Len, ixT)),
 			Eq(x.srcElemLeaves(st, a, k)[0], x.srcElemLeaves(st, b, k)[0]))))
+}
+
+// externalEffects: heap components an external function may write, from the types of its parameters.
+func externalEffects(fn *ssa.Function) ModSet {
+	ms := newModSet()
+	ms.allocs = true
+	seen := map[string]bool{}
+	var walk func(t types.Type, d int)
+	walk = func(t types.Type, d int) {
+		if ms.all {
+			return
+		}
+		if d > 6 {
+			ms.all = true
+			return
+		}
+		k := types.TypeString(t, nil)
+		if seen[k] {
+			return
+		}
+		seen[k] = true
+		switch u := t.Underlying().(type) {
+		case *types.Basic:
+			if u.Kind() == types.UnsafePointer {
+				ms.all = true
+			}
+		case *types.Pointer:
+			el := u.Elem()
+			ms.prefixes[canonPrefix(el)] = true
+			if _, isStruct := el.Underlying().(*types.Struct); !isStruct {
+				ms.prefixes["Cell."+typeKey(el)] = true
+			}
+			walk(el, d+1)
+		case *types.Slice:
+			ms.prefixes["Mem."+typeKey(u.Elem())] = true
+			walk(u.Elem(), d+1)
+		case *types.Array:
+			walk(u.Elem(), d+1)
+		case *types.Struct:
+			for i := 0; i < u.NumFields(); i++ {
+				walk(u.Field(i).Type(), d+1)
+			}
+		case *types.Tuple:
+			for i := 0; i < u.Len(); i++ {
+				walk(u.At(i).Type(), d+1)
+			}
+		default: // interface, func, map, chan, type parameter
+			ms.all = true
+		}
+	}
+	sig := fn.Signature
+	if r := sig.Recv(); r != nil {
+		walk(r.Type(), 0)
+	}
+	for i := 0; i < sig.Params().Len(); i++ {
+		walk(sig.Params().At(i).Type(), 0)
+	}
+	if ms.all {
+		ms.prefixes = map[string]bool{}
+	}
+	return ms
 }
